@@ -144,7 +144,7 @@ class SymEnv:
         region allocated since `mark`"""
         allowed = list(allowed) + self.regions_since(mark)
         ok_all = True
-        for mem, a, n in self.world.journal[mark[0] :]:
+        for mem, a, n, _k in self.world.journal[mark[0] :]:
             opts = []
             for b, off, size in allowed:
                 if self._mem_of(b, mem):
@@ -170,8 +170,18 @@ class SymEnv:
         return False
 
     def no_stores_since(self, mark, what, detail=None):
-        n = len(self.world.journal) - mark[0]
-        return self.check(n == 0, what, detail)
+        """no byte differs from what it was at `mark` (a store that puts back the bytes that were there -- an
+        all-or-nothing update restoring its snapshot -- changes nothing)"""
+        first = {}
+        for mem, a, n, k in self.world.journal[mark[0] :]:
+            first.setdefault(id(mem), (mem, k))
+        ok = True
+        for mem, a, n, k in self.world.journal[mark[0] :]:
+            now = mem.read(a, n)
+            before = mem.read(a, n, upto=first[id(mem)][1])
+            same = all((x is y) or (isinstance(x, int) and isinstance(y, int) and x == y) or (isinstance(x, symbuf.W) and isinstance(y, symbuf.W) and x.term is y.term and x.k == y.k) for x, y in zip(now, before))
+            ok = ok and same
+        return self.check(ok, what, detail)
 
     def raw(self, buf):
         return RawSym(buf)
